@@ -707,6 +707,17 @@ def checkSettlement (h : HCtx) (p c : Obs) : CM Unit := do
               --  moment each bid was accepted, `kupd` may have lowered it since)
               if refundTo u ≠ 0 then
                 viol "C04" "fixed-refund" s!"auction {i}: u{u} was refunded {refundTo u} in a fixed-price auction"
+              -- C04, fixed price: what the bidder paid (the reservations of the accepted bids) is at
+              -- least price × received and exceeds it by less than one selling coin's worth per
+              -- paying-denominated bid, one paying unit per selling-denominated bid
+              count "C04" "fixed-price-bounds"
+              let mine := pv.bids.filter (·.bidder == u)
+              let paid : Int := (mine.map (·.toPaying pd)).sum
+              let slack : Int := (mine.map (fun b => if b.denom == pd then a.startPrice else PREC)).sum
+              if a.startPrice * allocTo u > PREC * paid then
+                viol "C04" "fixed-price-bounds:underpaid" s!"auction {i}: u{u} received {allocTo u} at {a.startPrice}, paid {paid}"
+              if !(PREC * paid < a.startPrice * allocTo u + slack) && !mine.isEmpty then
+                viol "C04" "fixed-price-bounds:overpaid" s!"auction {i}: u{u} received {allocTo u} at {a.startPrice}, paid {paid} with {mine.length} bids"
           | .batch =>
             if !bookOk a pv.bids pv.allowed then skip
             else
@@ -1010,7 +1021,7 @@ def knownCounts : List (String × String) :=
    ("C01", "escrow-covered"), ("C01", "escrow-exact"),
    ("C02", "supply"), ("C02", "user-debit"), ("C02", "escrows-empty"),
    ("C03", "clearing"),
-   ("C04", "price-bounds"),
+   ("C04", "price-bounds"), ("C04", "fixed-price-bounds"),
    ("C05", "over-supply"),
    ("C06", "remainder"), ("C06", "fixed-alloc"),
    ("C07", "block"), ("C07", "fault-not-fired"),
